@@ -205,7 +205,8 @@ ClearCycles(h) ==
 (* ("illegal"), a field > 255 or not a number ("bad", ends the parse).     *)
 (* For a text with such an item the statement leaves open whether the text *)
 (* is refused, the destinations before it are bound, or it is skipped      *)
-(* (only identical / illegal): exp.outcomes lists the permitted results.   *)
+(* (identical / illegal; a bad item ends the text in every case):          *)
+(* exp.outcomes lists the permitted results.                               *)
 (***************************************************************************)
 Digits == <<"0", "1", "2", "3", "4", "5", "6", "7", "8", "9">>
 RECURSIVE NumStr(_)
@@ -248,16 +249,11 @@ Denote(items, cur, n, mode) ==
 RECURSIVE AllGood(_, _)
 AllGood(items, cur) ==
   Len(items) = 0 \/ (ItemKind(items[1], cur) = "good" /\ AllGood(SubSeq(items, 2, Len(items)), ItemNext(items[1], cur)))
-RECURSIVE HasBad(_, _)
-HasBad(items, cur) ==
-  Len(items) > 0 /\ (ItemKind(items[1], cur) = "bad" \/ HasBad(SubSeq(items, 2, Len(items)), ItemNext(items[1], cur)))
-
 Start == <<1, 1, 1>>
 \* the permitted results (sequences of records)
 Outcomes(items) ==
   IF AllGood(items, Start) THEN {Denote(items, Start, 0, "skip")}
-  ELSE {<<>>, Denote(items, Start, 0, "prefix")}
-       \cup (IF HasBad(items, Start) THEN {} ELSE {Denote(items, Start, 0, "skip")})
+  ELSE {<<>>, Denote(items, Start, 0, "prefix"), Denote(items, Start, 0, "skip")}
 
 \* the table after the records were added for the client, in order
 RECURSIVE FoldAdd1(_, _, _)
